@@ -1568,4 +1568,768 @@ theorem cyl_pinned_not_nearest :
     norm_num
 
 
+--2D-BEGIN  (generated by tools/c05_gen2d.py from the 3-D blocks above: do not edit by hand)
+/-! ## Segment (2-D) -/
+
+/-- **membership**: the projection is a point `a + t (b - a)`, `t ∈ [0,1]` of the segment. -/
+theorem seg2_project_mem (s : Segment2 K) (p : V2 K) :
+    letI := fieldNum K sq
+    s.Mem (s.projectLoc p).1.pt := by
+  letI := fieldNum K sq
+  simp only [Segment2.projectLoc, Segment2.Mem]
+  split_ifs with h1 h2
+  · exact ⟨0, le_refl _, zero_le_one, v2_ext (by simp [V2.add, V2.smul]) (by simp [V2.add, V2.smul])⟩
+  · exact ⟨1, zero_le_one, le_refl _, v2_ext (by simp [V2.add, V2.smul, V2.sub]) (by simp [V2.add, V2.smul, V2.sub])⟩
+  · push Not at h1 h2
+    have hpos : 0 < (s.b.sub s.a).normSq := lt_trans h1 h2
+    exact ⟨_, div_nonneg h1.le hpos.le, (div_le_one hpos).mpr h2.le, rfl⟩
+
+/-- **variational inequality**: `⟨p - proj, q - proj⟩ ≤ 0` for every point `q` of the segment. -/
+theorem seg2_project_variational (s : Segment2 K) (p q : V2 K) :
+    letI := fieldNum K sq
+    s.Mem q → ((p.sub (s.projectLoc p).1.pt).dot (q.sub (s.projectLoc p).1.pt)) ≤ 0 := by
+  letI := fieldNum K sq
+  intro hq
+  obtain ⟨t, ht0, ht1, rfl⟩ := hq
+  simp only [Segment2.projectLoc]
+  split_ifs with h1 h2
+  · simp only [V2.dot, V2.sub, V2.add, V2.smul, V2.normSq] at *
+    nlinarith [mul_nonneg ht0 (neg_nonneg.mpr h1)]
+  · simp only [V2.dot, V2.sub, V2.add, V2.smul, V2.normSq] at *
+    nlinarith [mul_nonneg (sub_nonneg.mpr ht1) (sub_nonneg.mpr h2)]
+  · push Not at h1 h2
+    have hpos : 0 < (s.b.sub s.a).normSq := lt_trans h1 h2
+    have hu := div_mul_cancel₀ ((s.b.sub s.a).dot (p.sub s.a)) (ne_of_gt hpos)
+    generalize (s.b.sub s.a).dot (p.sub s.a) / (s.b.sub s.a).normSq = u at hu
+    simp only [V2.dot, V2.sub, V2.add, V2.smul, V2.normSq] at *
+    apply le_of_eq
+    linear_combination (u - t) * hu
+
+/-- **optimality**: no point of the segment is closer to `p` than the projection. -/
+theorem seg2_project_optimal (s : Segment2 K) (p q : V2 K) :
+    letI := fieldNum K sq
+    s.Mem q → dsq2 p (s.projectLoc p).1.pt ≤ dsq2 p q := by
+  letI := fieldNum K sq
+  intro hq
+  have h := seg2_project_variational sq s p q hq
+  simp only [V2.dot, V2.sub] at h
+  exact opt_of_var2 _ _ _ _ _ _ h
+
+
+/-- **location**: the reported `SegmentPointLocation` reproduces the projection — `OnVertex(i)` is vertex `i`,
+`OnEdge([b0,b1])` has non-negative barycentric coordinates summing to one with `proj = b0·a + b1·b`. -/
+theorem seg2_location_sound (s : Segment2 K) (p : V2 K) :
+    letI := fieldNum K sq
+    match (s.projectLoc p).2 with
+    | .vertex i => (i = 0 ∧ (s.projectLoc p).1.pt = s.a) ∨ (i = 1 ∧ (s.projectLoc p).1.pt = s.b)
+    | .edge b0 b1 => 0 ≤ b0 ∧ 0 ≤ b1 ∧ b0 + b1 = 1 ∧ (s.projectLoc p).1.pt = (s.a.smul b0).add (s.b.smul b1) := by
+  letI := fieldNum K sq
+  simp only [Segment2.projectLoc]
+  split_ifs with h1 h2
+  · simp
+  · simp
+  · push Not at h1 h2
+    have hpos : 0 < (s.b.sub s.a).normSq := lt_trans h1 h2
+    have hu0 : 0 ≤ (s.b.sub s.a).dot (p.sub s.a) / (s.b.sub s.a).normSq := div_nonneg h1.le hpos.le
+    have hu1 : (s.b.sub s.a).dot (p.sub s.a) / (s.b.sub s.a).normSq ≤ 1 := (div_le_one hpos).mpr h2.le
+    refine ⟨by linarith, hu0, by ring, ?_⟩
+    generalize (s.b.sub s.a).dot (p.sub s.a) / (s.b.sub s.a).normSq = u
+    apply v2_ext <;> simp only [V2.add, V2.smul, V2.sub] <;> ring
+
+/-- **inside flag, exact part**: a point of the segment is its own projection and is reported inside. -/
+theorem seg2_inside_of_mem (s : Segment2 K) (p : V2 K) :
+    letI := fieldNum K sq
+    s.Mem p → (s.projectLoc p).1.pt = p ∧ (s.projectLoc p).1.inside = true := by
+  letI := fieldNum K sq
+  intro hp
+  have h := seg2_project_optimal sq s p p hp
+  have hpt : (@Segment2.projectLoc K (fieldNum K sq) s p).1.pt = p := by
+    simp only [dsq2] at h
+    have h0 : (p.x - p.x) * (p.x - p.x) + (p.y - p.y) * (p.y - p.y) = (0 : K) := by ring
+    rw [h0] at h
+    obtain ⟨hx, hy⟩ := sumsq2_eq_zero h
+    exact (v2_ext (by linarith) (by linarith)).symm
+  refine ⟨hpt, ?_⟩
+  have hin : (@Segment2.projectLoc K (fieldNum K sq) s p).1.inside
+      = @V2.relEq K (fieldNum K sq) (@Segment2.projectLoc K (fieldNum K sq) s p).1.pt p := by
+    simp only [Segment2.projectLoc]
+    split_ifs <;> rfl
+  rw [hin, hpt]
+  simp [V2.relEq, relEq, neq]
+
+/-- **inside flag, tolerance part**: `is_inside` is `relative_eq!(proj, pt)` — true exactly when every coordinate of
+the projection is within `ε` (absolute or relative) of the query point. -/
+theorem seg2_inside_iff_close (s : Segment2 K) (p : V2 K) :
+    letI := fieldNum K sq
+    (s.projectLoc p).1.inside = true ↔
+      (RelClose (s.projectLoc p).1.pt.x p.x ∧ RelClose (s.projectLoc p).1.pt.y p.y) := by
+  letI := fieldNum K sq
+  have hin : (@Segment2.projectLoc K (fieldNum K sq) s p).1.inside
+      = @V2.relEq K (fieldNum K sq) (@Segment2.projectLoc K (fieldNum K sq) s p).1.pt p := by
+    simp only [Segment2.projectLoc]
+    split_ifs <;> rfl
+  rw [hin]
+  simp only [V2.relEq, Bool.and_eq_true, relEq_iff, and_assoc]
+
+
+/-! ## Ball (2-D) (model = corrected behaviour at the centre, see fixes/C05-ball-center-nan.diff) -/
+
+/-- **inside flag**: `is_inside ⇔ |p|² ≤ r²`, for both `solid` flags and also at the centre. -/
+theorem ball2_inside_iff (s : Ball K) (p : V2 K) (solid : Bool) :
+    letI := fieldNum K sq
+    (s.project2 p solid).inside = true ↔ s.Mem2 p := by
+  letI := fieldNum K sq
+  simp only [Ball.project2, Ball.Mem2]
+  split_ifs <;> simp_all
+
+/-- `contains_local_point ⇔ Mem` -/
+theorem ball2_contains_iff (s : Ball K) (p : V2 K) :
+    letI := fieldNum K sq
+    s.contains2 p = true ↔ s.Mem2 p := by
+  simp [Ball.contains2, Ball.Mem2]
+
+/-- key computation: off the `solid ∧ inside` branch the projection is on the sphere and `|p - proj|² = (|p| - r)²`. -/
+private theorem ball2_core (hs : LawfulSqrt sq) (s : Ball K) (p : V2 K) (solid : Bool) :
+    letI := fieldNum K sq
+    (solid = false ∨ ¬ s.Mem2 p) →
+      (s.project2 p solid).pt.normSq = s.r * s.r ∧
+      dsq2 p (s.project2 p solid).pt = (sq p.normSq - s.r) * (sq p.normSq - s.r) := by
+  letI := fieldNum K sq
+  intro h
+  have hnn : 0 ≤ p.normSq := by
+    simp only [V2.normSq, V2.dot]; nlinarith [mul_self_nonneg p.x, mul_self_nonneg p.y]
+  have hd2 := hs.sq_mul _ hnn
+  have hd0 := hs.nonneg _ hnn
+  simp only [Ball.project2, Ball.Mem2] at *
+  split_ifs with c1 c2
+  · simp at c1; rcases h with h | h
+    · simp [h] at c1
+    · exact absurd c1.1 h
+  · simp only [neq, Bool.and_eq_true, decide_eq_true_eq] at c2
+    have hz : p.normSq = 0 := le_antisymm c2.1 c2.2
+    have hd : sq p.normSq = 0 := by
+      have : sq p.normSq * sq p.normSq = 0 := by rw [hd2, hz]
+      exact mul_self_eq_zero.mp this
+    simp only [V2.normSq, V2.dot] at hz
+    obtain ⟨hx, hy⟩ := sumsq2_eq_zero (le_of_eq hz)
+    refine ⟨by simp [V2.normSq, V2.dot], ?_⟩
+    rw [hd]; simp only [dsq2, hx, hy]; ring
+  · have hne : p.normSq ≠ 0 := by
+      intro h0; apply c2; simp [neq, h0]
+    have hdne : sq p.normSq ≠ 0 := by
+      intro h0; rw [h0] at hd2; exact hne (by linarith)
+    have hk := div_mul_cancel₀ s.r hdne
+    generalize s.r / sq p.normSq = k at hk
+    generalize sq p.normSq = d at *
+    simp only [V2.normSq, V2.dot, V2.smul, dsq2] at *
+    refine ⟨?_, ?_⟩
+    · linear_combination (k * k) * (-hd2) + (k * d + s.r) * hk
+    · linear_combination ((1 - k) * (1 - k)) * (-hd2) - (2 * d - k * d - s.r) * hk
+
+/-- **boundary**: when `solid = false` or the point is outside, the projection lies on the sphere `|x|² = r²`. -/
+theorem ball2_project_on_sphere (hs : LawfulSqrt sq) (s : Ball K) (p : V2 K) (solid : Bool) :
+    letI := fieldNum K sq
+    (solid = false ∨ ¬ s.Mem2 p) → (s.project2 p solid).pt.normSq = s.r * s.r :=
+  fun h => (ball2_core sq hs s p solid h).1
+
+/-- **membership**: the projection is a point of the ball. -/
+theorem ball2_project_mem (hs : LawfulSqrt sq) (s : Ball K) (p : V2 K) (solid : Bool) :
+    letI := fieldNum K sq
+    s.Mem2 (s.project2 p solid).pt := by
+  letI := fieldNum K sq
+  by_cases h : solid = false ∨ ¬ s.Mem2 p
+  · exact le_of_eq (ball2_project_on_sphere sq hs s p solid h)
+  · push Not at h
+    have h1 : solid = true := by simpa using h.1
+    have h2 := h.2
+    simp only [Ball.project2, Ball.Mem2] at *
+    simp [h1, h2]
+
+/-- **optimality w.r.t. the sphere** (both flags, inside or outside): no point of the sphere is closer than the projection. -/
+theorem ball2_project_optimal_boundary (hs : LawfulSqrt sq) (s : Ball K) (p q : V2 K) (solid : Bool) :
+    letI := fieldNum K sq
+    0 ≤ s.r → q.normSq = s.r * s.r → dsq2 p (s.project2 p solid).pt ≤ dsq2 p q := by
+  letI := fieldNum K sq
+  intro hr hq
+  by_cases h : solid = false ∨ ¬ s.Mem2 p
+  · rw [(ball2_core sq hs s p solid h).2]
+    have hnn : 0 ≤ p.normSq := by
+      simp only [V2.normSq, V2.dot]; nlinarith [mul_self_nonneg p.x, mul_self_nonneg p.y]
+    have hd2 := hs.sq_mul _ hnn
+    have hd0 := hs.nonneg _ hnn
+    have hdot := dot_le2 p.x p.y q.x q.y (sq p.normSq) s.r (by simpa [V2.normSq, V2.dot] using le_of_eq hd2.symm)
+      (by simpa [V2.normSq, V2.dot] using le_of_eq hq) hd0 hr
+    generalize sq p.normSq = d at *
+    simp only [V2.normSq, V2.dot, dsq2] at *
+    nlinarith
+  · push Not at h
+    have h1 : solid = true := by simpa using h.1
+    have h2 := h.2
+    have : (@Ball.project2 K (fieldNum K sq) s p solid).pt = p := by
+      simp only [Ball.project2, Ball.Mem2] at *
+      simp [h1, h2]
+    rw [this]
+    simp only [dsq2]
+    nlinarith [mul_self_nonneg (p.x - q.x), mul_self_nonneg (p.y - q.y)]
+
+/-- **optimality w.r.t. the solid ball**: for `solid = true`, or for an outside point, no point of the ball is closer. -/
+theorem ball2_project_optimal (hs : LawfulSqrt sq) (s : Ball K) (p q : V2 K) (solid : Bool) :
+    letI := fieldNum K sq
+    0 ≤ s.r → s.Mem2 q → (solid = true ∨ ¬ s.Mem2 p) → dsq2 p (s.project2 p solid).pt ≤ dsq2 p q := by
+  letI := fieldNum K sq
+  intro hr hq hc
+  by_cases h2 : s.Mem2 p
+  · have h1 : solid = true := by rcases hc with h | h; exact h; exact absurd h2 h
+    have : (@Ball.project2 K (fieldNum K sq) s p solid).pt = p := by
+      simp only [Ball.project2, Ball.Mem2] at *
+      simp [h1, h2]
+    rw [this]
+    simp only [dsq2]
+    nlinarith [mul_self_nonneg (p.x - q.x), mul_self_nonneg (p.y - q.y)]
+  · rw [(ball2_core sq hs s p solid (Or.inr h2)).2]
+    have hnn : 0 ≤ p.normSq := by
+      simp only [V2.normSq, V2.dot]; nlinarith [mul_self_nonneg p.x, mul_self_nonneg p.y]
+    have hd2 := hs.sq_mul _ hnn
+    have hd0 := hs.nonneg _ hnn
+    have hdot := dot_le2 p.x p.y q.x q.y (sq p.normSq) s.r (by simpa [V2.normSq, V2.dot] using le_of_eq hd2.symm)
+      (by simpa [Ball.Mem2, V2.normSq, V2.dot] using hq) hd0 hr
+    have hrd : s.r ≤ sq p.normSq := by
+      apply le_of_mul_self_le hd0
+      rw [hd2]; simp only [Ball.Mem2] at h2; exact le_of_lt (not_le.mp h2)
+    have hqn : 0 ≤ q.normSq := by
+      simp only [V2.normSq, V2.dot]; nlinarith [mul_self_nonneg q.x, mul_self_nonneg q.y]
+    have he2 := hs.sq_mul _ hqn
+    have he0 := hs.nonneg _ hqn
+    have her : sq q.normSq ≤ s.r := by
+      apply le_of_mul_self_le hr
+      rw [he2]; exact hq
+    have hdot' := dot_le2 p.x p.y q.x q.y (sq p.normSq) (sq q.normSq)
+      (by simpa [V2.normSq, V2.dot] using le_of_eq hd2.symm) (by simpa [V2.normSq, V2.dot] using le_of_eq he2.symm) hd0 he0
+    generalize sq p.normSq = d at *
+    generalize sq q.normSq = e at *
+    simp only [Ball.Mem2, V2.normSq, V2.dot, dsq2] at *
+    nlinarith [mul_nonneg (sub_nonneg.2 her) (by linarith : 0 ≤ 2 * d - e - s.r)]
+
+
+/-- **distance**: `distance_to_local_point` has the magnitude `|p - proj|` and is negative exactly for interior
+points with `solid = false`; it is `0` for inside points when `solid = true`. -/
+theorem ball2_distance_spec (hs : LawfulSqrt sq) (s : Ball K) (p : V2 K) (solid : Bool) :
+    letI := fieldNum K sq
+    0 ≤ s.r →
+      s.distance2 p solid * s.distance2 p solid = dsq2 p (s.project2 p solid).pt ∧
+      (s.distance2 p solid < 0 ↔ (solid = false ∧ p.normSq < s.r * s.r)) := by
+  letI := fieldNum K sq
+  intro hr
+  have hnn : 0 ≤ p.normSq := by
+    simp only [V2.normSq, V2.dot]; nlinarith [mul_self_nonneg p.x, mul_self_nonneg p.y]
+  have hd2 := hs.sq_mul _ hnn
+  have hd0 := hs.nonneg _ hnn
+  have hlt : sq p.normSq - s.r < 0 ↔ p.normSq < s.r * s.r := by
+    constructor
+    · intro h; rw [← hd2]; nlinarith
+    · intro h; rw [← hd2] at h; by_contra hc; push Not at hc; nlinarith
+  by_cases h : solid = false ∨ ¬ s.Mem2 p
+  · have e := (ball2_core sq hs s p solid h).2
+    rw [e]
+    simp only [Ball.distance2, V2.norm, fieldNum_sqrt]
+    rcases h with h | h
+    · subst h; simpa using hlt
+    · have h3 : ¬ (sq p.normSq - s.r < 0) := by
+        rw [hlt]; simp only [Ball.Mem2] at h; push Not at h ⊢; exact h.le
+      have h4 : ¬ (p.normSq < s.r * s.r) := by rwa [← hlt]
+      simp [h3, h4]
+  · push Not at h
+    have h1 : solid = true := by simpa using h.1
+    have h2 := h.2
+    have hp : (@Ball.project2 K (fieldNum K sq) s p solid).pt = p := by
+      simp only [Ball.project2, Ball.Mem2] at *
+      simp [h1, h2]
+    rw [hp]
+    subst h1
+    simp only [Ball.distance2, V2.norm, Ball.Mem2, fieldNum_sqrt] at *
+    by_cases h3 : sq p.normSq - s.r < 0
+    · simp [h3, dsq2]
+    · have h5 : sq p.normSq - s.r = 0 := by
+        have h6 : ¬ (p.normSq < s.r * s.r) := by rwa [← hlt]
+        have h7 : p.normSq = s.r * s.r := le_antisymm h2 (not_lt.mp h6)
+        have h4 : sq p.normSq * sq p.normSq = s.r * s.r := by rw [hd2, h7]
+        have := le_of_mul_self_le hr (le_of_eq h4)
+        push Not at h3; linarith
+      simp [h5, dsq2]
+
+
+/-! ## HalfSpace (2-D) `{x | n·x ≤ 0}` with a unit normal -/
+
+/-- **inside flag** -/
+theorem hs2_inside_iff (s : HalfSpace2 K) (p : V2 K) (solid : Bool) :
+    letI := fieldNum K sq
+    (s.project p solid).inside = true ↔ s.Mem p := by
+  letI := fieldNum K sq
+  simp only [HalfSpace2.project, HalfSpace2.Mem]
+  split_ifs <;> simp_all
+
+theorem hs2_contains_iff (s : HalfSpace2 K) (p : V2 K) :
+    letI := fieldNum K sq
+    s.contains p = true ↔ s.Mem p := by
+  simp [HalfSpace2.contains, HalfSpace2.Mem]
+
+/-- **boundary**: when `solid = false` or the point is outside, the projection is on the plane `n·x = 0`. -/
+theorem hs2_project_on_plane (s : HalfSpace2 K) (p : V2 K) (solid : Bool) :
+    letI := fieldNum K sq
+    s.n.normSq = 1 → (solid = false ∨ ¬ s.Mem p) → s.n.dot (s.project p solid).pt = 0 := by
+  letI := fieldNum K sq
+  intro hn h
+  simp only [HalfSpace2.project, HalfSpace2.Mem] at *
+  split_ifs with c
+  · simp at c; rcases h with h | h
+    · simp [h] at c
+    · exact absurd c.1 h
+  · simp only [V2.dot, V2.add, V2.smul, V2.neg, V2.normSq] at *
+    linear_combination (-(s.n.x * p.x + s.n.y * p.y)) * hn
+
+/-- **membership** -/
+theorem hs2_project_mem (s : HalfSpace2 K) (p : V2 K) (solid : Bool) :
+    letI := fieldNum K sq
+    s.n.normSq = 1 → s.Mem (s.project p solid).pt := by
+  letI := fieldNum K sq
+  intro hn
+  by_cases h : solid = false ∨ ¬ s.Mem p
+  · exact le_of_eq (hs2_project_on_plane sq s p solid hn h)
+  · push Not at h
+    have h1 : solid = true := by simpa using h.1
+    have h2 := h.2
+    simp only [HalfSpace2.project, HalfSpace2.Mem] at *
+    simp [h1, h2]
+
+/-- **optimality w.r.t. the boundary plane** (both flags) -/
+theorem hs2_project_optimal_boundary (s : HalfSpace2 K) (p q : V2 K) (solid : Bool) :
+    letI := fieldNum K sq
+    s.n.normSq = 1 → s.n.dot q = 0 → dsq2 p (s.project p solid).pt ≤ dsq2 p q := by
+  letI := fieldNum K sq
+  intro hn hq
+  simp only [HalfSpace2.project]
+  split_ifs with c
+  · simp only [dsq2]
+    nlinarith [mul_self_nonneg (p.x - q.x), mul_self_nonneg (p.y - q.y)]
+  · apply opt_of_var2
+    simp only [V2.dot, V2.add, V2.smul, V2.neg, V2.normSq] at *
+    apply le_of_eq
+    linear_combination ((s.n.x * p.x + s.n.y * p.y)^2) * hn
+      + (s.n.x * p.x + s.n.y * p.y) * hq
+
+/-- **optimality w.r.t. the half-space**: for `solid = true`, or for an outside point, no member is closer. -/
+theorem hs2_project_optimal (s : HalfSpace2 K) (p q : V2 K) (solid : Bool) :
+    letI := fieldNum K sq
+    s.n.normSq = 1 → s.Mem q → (solid = true ∨ ¬ s.Mem p) → dsq2 p (s.project p solid).pt ≤ dsq2 p q := by
+  letI := fieldNum K sq
+  intro hn hq hc
+  simp only [HalfSpace2.project, HalfSpace2.Mem] at *
+  split_ifs with c
+  · simp only [dsq2]
+    nlinarith [mul_self_nonneg (p.x - q.x), mul_self_nonneg (p.y - q.y)]
+  · have hd : 0 < s.n.dot p := by
+      rcases hc with h | h
+      · simp [h] at c; exact c
+      · exact not_le.mp h
+    apply opt_of_var2
+    simp only [V2.dot, V2.add, V2.smul, V2.neg, V2.normSq] at *
+    have e : (p.x - (p.x + -s.n.x * (s.n.x * p.x + s.n.y * p.y))) * (q.x - (p.x + -s.n.x * (s.n.x * p.x + s.n.y * p.y)))
+        + (p.y - (p.y + -s.n.y * (s.n.x * p.x + s.n.y * p.y))) * (q.y - (p.y + -s.n.y * (s.n.x * p.x + s.n.y * p.y)))
+        = (s.n.x * p.x + s.n.y * p.y) * (s.n.x * q.x + s.n.y * q.y) := by
+      linear_combination ((s.n.x * p.x + s.n.y * p.y)^2) * hn
+    rw [e]
+    exact mul_nonpos_of_nonneg_of_nonpos hd.le hq
+
+
+/-- **distance**: magnitude `|p - proj|`, negative exactly for strictly interior points with `solid = false`. -/
+theorem hs2_distance_spec (s : HalfSpace2 K) (p : V2 K) (solid : Bool) :
+    letI := fieldNum K sq
+    s.n.normSq = 1 →
+      s.distance p solid * s.distance p solid = dsq2 p (s.project p solid).pt ∧
+      (s.distance p solid < 0 ↔ (solid = false ∧ s.n.dot p < 0)) := by
+  letI := fieldNum K sq
+  intro hn
+  simp only [HalfSpace2.distance, HalfSpace2.project]
+  have key : ∀ d : K, d = s.n.dot p → dsq2 p (p.add (s.n.neg.smul d)) = d * d := by
+    intro d hd
+    simp only [V2.dot, V2.add, V2.smul, V2.neg, V2.normSq, dsq2] at *
+    linear_combination (d * d) * hn
+  cases solid
+  · simp [key _ rfl]
+  · by_cases h : s.n.dot p < 0
+    · have h' : s.n.dot p ≤ 0 := h.le
+      simp [h, h', dsq2]
+    · by_cases h2 : s.n.dot p ≤ 0
+      · have h3 : s.n.dot p = 0 := le_antisymm h2 (not_lt.mp h)
+        simp [h, h2, dsq2, h3]
+      · simp [h, h2, key _ rfl]
+
+
+/-! ## (2-D) Default methods of `PointQuery` and posed forms (generic in the shape's `project_local_point`) -/
+
+/-- **`distance_to_local_point` (default)**: magnitude `|p - proj|`; negative only if `solid = false` and the projection
+reports `is_inside`; and then it *is* negative unless `proj = p`.  Together with the `*_inside_iff` theorems this is
+"the sign of the distance agrees with membership". -/
+theorem default_distance_spec2 (hs : LawfulSqrt sq) (project : V2 K → Bool → PP2 K) (p : V2 K) (solid : Bool) :
+    letI := fieldNum K sq
+    defaultDistance2 project p solid * defaultDistance2 project p solid = dsq2 p (project p solid).pt ∧
+    (defaultDistance2 project p solid < 0 → solid = false ∧ (project p solid).inside = true) ∧
+    (solid = false → (project p solid).inside = true → (project p solid).pt ≠ p → defaultDistance2 project p solid < 0) := by
+  letI := fieldNum K sq
+  have hnn : 0 ≤ ((project p solid).pt.sub p).normSq := by
+    simp only [V2.normSq, V2.dot]
+    nlinarith [mul_self_nonneg ((project p solid).pt.sub p).x, mul_self_nonneg ((project p solid).pt.sub p).y]
+  have h2 := hs.sq_mul _ hnn
+  have h0 := hs.nonneg _ hnn
+  have hd : ((project p solid).pt.sub p).normSq = dsq2 p (project p solid).pt := by
+    simp only [V2.normSq, V2.dot, V2.sub, dsq2]; ring
+  simp only [defaultDistance2, V2.norm, fieldNum_sqrt]
+  refine ⟨?_, ?_, ?_⟩
+  · split_ifs <;> rw [← hd] <;> linear_combination h2
+  · split_ifs with c
+    · intro h; exact absurd h (not_lt.mpr h0)
+    · intro _
+      simp only [Bool.or_eq_true, Bool.not_eq_true', not_or, Bool.not_eq_false] at c
+      exact ⟨by simpa using c.1, c.2⟩
+  · intro h1 h2' h3
+    subst h1
+    simp only [h2', Bool.false_or, Bool.not_true, Bool.false_eq_true, if_false]
+    have hpos : 0 < sq ((project p false).pt.sub p).normSq := by
+      rcases lt_or_eq_of_le h0 with h | h
+      · exact h
+      · exfalso
+        apply h3
+        rw [← h] at h2
+        have hz : ((project p false).pt.sub p).normSq = 0 := by linarith
+        simp only [V2.normSq, V2.dot, V2.sub] at hz
+        obtain ⟨ex, ey⟩ := sumsq2_eq_zero (le_of_eq hz)
+        exact v2_ext (by linarith) (by linarith)
+    linarith
+
+/-- **`contains_local_point` (default)** is the inside flag of the solid projection -/
+theorem default_contains_spec2 (project : V2 K → Bool → PP2 K) (p : V2 K) :
+    letI := fieldNum K sq
+    defaultContains2 project p = (project p true).inside := rfl
+
+/-- **`project_local_point_with_max_dist` (default)**: `None` exactly when the projection is farther than `max_dist`. -/
+theorem default_maxdist_spec2 (hs : LawfulSqrt sq) (project : V2 K → Bool → PP2 K) (p : V2 K) (solid : Bool) (m : K) :
+    letI := fieldNum K sq
+    0 ≤ m →
+    ((defaultMaxDist2 project p solid m = none ↔ m * m < dsq2 p (project p solid).pt) ∧
+     (∀ r, defaultMaxDist2 project p solid m = some r → r = project p solid)) := by
+  letI := fieldNum K sq
+  intro hm
+  have hnn : 0 ≤ (p.sub (project p solid).pt).normSq := by
+    simp only [V2.normSq, V2.dot]
+    nlinarith [mul_self_nonneg (p.sub (project p solid).pt).x, mul_self_nonneg (p.sub (project p solid).pt).y]
+  have h2 := hs.sq_mul _ hnn
+  have h0 := hs.nonneg _ hnn
+  have hd : (p.sub (project p solid).pt).normSq = dsq2 p (project p solid).pt := by
+    simp only [V2.normSq, V2.dot, V2.sub, dsq2]
+  simp only [defaultMaxDist2]
+  split_ifs with c <;> simp only [V2.norm, fieldNum_sqrt] at c
+  · refine ⟨⟨fun _ => ?_, fun _ => rfl⟩, fun r h => by simp at h⟩
+    rw [← hd]; nlinarith
+  · refine ⟨⟨fun h => by simp at h, fun h => ?_⟩, fun r h => by simpa using h.symm⟩
+    exfalso; rw [← hd] at h; push Not at c; nlinarith
+
+
+theorem iso2_invAct_act (m : Iso2 K) (x : V2 K) (hm : Iso2.Unit m) :
+    letI := fieldNum K sq
+    m.invAct (m.act x) = x := by
+  letI := fieldNum K sq
+  simp only [Iso2.invAct, Iso2.act]
+  have : ((m.rot x).add m.t).sub m.t = m.rot x := by
+    apply v2_ext <;> simp [V2.add, V2.sub]
+  rw [this]; exact iso2_invRot_rot sq m x hm
+
+theorem iso2_act_invAct (m : Iso2 K) (x : V2 K) (hm : Iso2.Unit m) :
+    letI := fieldNum K sq
+    m.act (m.invAct x) = x := by
+  letI := fieldNum K sq
+  simp only [Iso2.invAct, Iso2.act]
+  rw [iso2_rot_invRot sq m _ hm]
+  apply v2_ext <;> simp [V2.add, V2.sub]
+
+/-- an isometry preserves squared distances -/
+theorem iso2_act_dsq (m : Iso2 K) (x y : V2 K) (hm : Iso2.Unit m) :
+    letI := fieldNum K sq
+    dsq2 (m.act x) (m.act y) = dsq2 x y := by
+  letI := fieldNum K sq
+  rw [← iso2_rot_dsq sq m x y hm]
+  simp only [Iso2.act, dsq2, V2.add]; ring
+
+/-- **posed = local ∘ inverse transform** (definitional) -/
+theorem posed_project_def2 (project : V2 K → Bool → PP2 K) (m : Iso2 K) (pt : V2 K) (solid : Bool) :
+    letI := fieldNum K sq
+    posedProject2 project m pt solid = ⟨(project (m.invAct pt) solid).inside, m.act (project (m.invAct pt) solid).pt⟩ := rfl
+theorem posed_distance_def2 (distance : V2 K → Bool → K) (m : Iso2 K) (pt : V2 K) (solid : Bool) :
+    letI := fieldNum K sq
+    posedDistance2 distance m pt solid = distance (m.invAct pt) solid := rfl
+theorem posed_contains_def2 (contains : V2 K → Bool) (m : Iso2 K) (pt : V2 K) :
+    letI := fieldNum K sq
+    posedContains2 contains m pt = contains (m.invAct pt) := rfl
+
+/-- **posed projection transfers the local guarantees**: if, at the local point `m⁻¹ pt`, the local projection is a member of
+`S` that is at least as close as every member of `T`, then `project_point` returns a member of the world-space shape
+`m·S = {x | S (m⁻¹ x)}` that is at least as close to `pt` as every point of `m·T`. -/
+theorem posed_project_optimal2 (project : V2 K → Bool → PP2 K) (S T : V2 K → Prop) (m : Iso2 K) (pt : V2 K) (solid : Bool)
+    (hm : Iso2.Unit m) :
+    letI := fieldNum K sq
+    S (project (m.invAct pt) solid).pt →
+    (∀ q, T q → dsq2 (m.invAct pt) (project (m.invAct pt) solid).pt ≤ dsq2 (m.invAct pt) q) →
+    S (m.invAct (posedProject2 project m pt solid).pt) ∧
+    ∀ y, T (m.invAct y) → dsq2 pt (posedProject2 project m pt solid).pt ≤ dsq2 pt y := by
+  letI := fieldNum K sq
+  intro h1 h2
+  simp only [posedProject2, PP2.transformBy]
+  refine ⟨by rw [iso2_invAct_act sq m _ hm]; exact h1, fun y hy => ?_⟩
+  have e1 := iso2_act_dsq sq m (m.invAct pt) (project (m.invAct pt) solid).pt hm
+  have e2 := iso2_act_dsq sq m (m.invAct pt) (m.invAct y) hm
+  rw [iso2_act_invAct sq m pt hm] at e1 e2
+  rw [iso2_act_invAct sq m y hm] at e2
+  rw [e1, e2]
+  exact h2 _ hy
+
+
+
+/-! ## Aabb / Cuboid (2-D) -/
+
+def BoxMem2 (lo hi x : V2 K) : Prop := (lo.x ≤ x.x ∧ x.x ≤ hi.x) ∧ (lo.y ≤ x.y ∧ x.y ≤ hi.y)
+def BoxBnd2 (lo hi x : V2 K) : Prop :=
+  BoxMem2 lo hi x ∧ (x.x = lo.x ∨ x.x = hi.x ∨ x.y = lo.y ∨ x.y = hi.y)
+def BoxOk2 (lo hi : V2 K) : Prop := lo.x ≤ hi.x ∧ lo.y ≤ hi.y
+
+private theorem aabb2_shift_zero (lo hi p : V2 K) (hok : BoxOk2 lo hi) :
+    letI := fieldNum K sq
+    (((lo.sub p).sup V2.zero).sub ((p.sub hi).sup V2.zero)).isZero = true ↔ BoxMem2 lo hi p := by
+  letI := fieldNum K sq
+  simp only [V2.isZero, V2.sub, V2.sup, V2.zero, fieldNum_nmax, Bool.and_eq_true, neq_zero_iff, BoxMem2]
+  rw [(clamp_shift lo.x hi.x p.x hok.1).1, (clamp_shift lo.y hi.y p.y hok.2).1]
+
+private theorem aabb2_branch_out (lo hi p : V2 K) (solid : Bool) (hok : BoxOk2 lo hi) (hm : ¬ BoxMem2 lo hi p) :
+    letI := fieldNum K sq
+    aabbProject2 lo hi p solid = ⟨false, p.add (((lo.sub p).sup V2.zero).sub ((p.sub hi).sup V2.zero))⟩ := by
+  letI := fieldNum K sq
+  have hz := aabb2_shift_zero sq lo hi p hok
+  have hZ : (((lo.sub p).sup V2.zero).sub ((p.sub hi).sup V2.zero)).isZero = false := by
+    rw [← Bool.not_eq_true]; exact fun h => hm (hz.mp h)
+  simp only [aabbProject2, aabbDoProject2, hZ, Bool.not_false, if_true]
+private theorem aabb2_branch_solid (lo hi p : V2 K) (hok : BoxOk2 lo hi) (hm : BoxMem2 lo hi p) :
+    letI := fieldNum K sq
+    aabbProject2 lo hi p true = ⟨true, p⟩ := by
+  letI := fieldNum K sq
+  have hZ := (aabb2_shift_zero sq lo hi p hok).mpr hm
+  simp [aabbProject2, aabbDoProject2, hZ]
+private theorem aabb2_branch_hollow (lo hi p : V2 K) (hok : BoxOk2 lo hi) (hm : BoxMem2 lo hi p) :
+    letI := fieldNum K sq
+    (aabbProject2 lo hi p false).inside = true := by
+  letI := fieldNum K sq
+  have hZ := (aabb2_shift_zero sq lo hi p hok).mpr hm
+  simp [aabbProject2, aabbDoProject2, hZ]
+
+/-- **inside flag** (`Aabb::project_local_point`, 2-D) -/
+theorem aabb2_inside_iff (lo hi p : V2 K) (solid : Bool) (hok : BoxOk2 lo hi) :
+    letI := fieldNum K sq
+    (aabbProject2 lo hi p solid).inside = true ↔ BoxMem2 lo hi p := by
+  letI := fieldNum K sq
+  by_cases hm : BoxMem2 lo hi p
+  · cases solid
+    · simp [aabb2_branch_hollow sq lo hi p hok hm, hm]
+    · simp [aabb2_branch_solid sq lo hi p hok hm, hm]
+  · simp [aabb2_branch_out sq lo hi p solid hok hm, hm]
+
+private theorem aabb2_solid_core (lo hi p : V2 K) (solid : Bool) (hok : BoxOk2 lo hi)
+    (hc : solid = true ∨ ¬ BoxMem2 lo hi p) :
+    letI := fieldNum K sq
+    BoxMem2 lo hi (aabbProject2 lo hi p solid).pt ∧
+    (¬ BoxMem2 lo hi p → BoxBnd2 lo hi (aabbProject2 lo hi p solid).pt) ∧
+    ∀ q, BoxMem2 lo hi q → ((p.sub (aabbProject2 lo hi p solid).pt).dot (q.sub (aabbProject2 lo hi p solid).pt)) ≤ 0 := by
+  letI := fieldNum K sq
+  obtain ⟨x1, x2, x3, x4⟩ := clamp_shift lo.x hi.x p.x hok.1
+  obtain ⟨y1, y2, y3, y4⟩ := clamp_shift lo.y hi.y p.y hok.2
+  by_cases hm : BoxMem2 lo hi p
+  · have hs : solid = true := by rcases hc with h | h; exact h; exact absurd hm h
+    subst hs
+    rw [aabb2_branch_solid sq lo hi p hok hm]
+    refine ⟨hm, fun h => absurd hm h, ?_⟩
+    intro q _
+    simp [V2.dot, V2.sub]
+  · rw [aabb2_branch_out sq lo hi p solid hok hm]
+    simp only [V2.sub, V2.sup, V2.zero, V2.add, fieldNum_nmax, V2.dot, BoxMem2, BoxBnd2]
+    refine ⟨⟨⟨x2, x3⟩, ⟨y2, y3⟩⟩, fun _ => ⟨⟨⟨x2, x3⟩, ⟨y2, y3⟩⟩, ?_⟩, ?_⟩
+    · simp only [BoxMem2] at hm
+      by_contra hcon
+      push Not at hcon
+      apply hm
+      have hx : lo.x ≤ p.x ∧ p.x ≤ hi.x := by
+        rcases lt_or_ge p.x lo.x with h | h
+        · exfalso; apply hcon.1; rw [max_eq_left (by linarith), max_eq_right (by linarith)]; ring
+        · rcases lt_or_ge hi.x p.x with h' | h'
+          · exfalso; apply hcon.2.1; rw [max_eq_right (by linarith), max_eq_left (by linarith)]; ring
+          · exact ⟨h, h'⟩
+      have hy : lo.y ≤ p.y ∧ p.y ≤ hi.y := by
+        rcases lt_or_ge p.y lo.y with h | h
+        · exfalso; apply hcon.2.2.1; rw [max_eq_left (by linarith), max_eq_right (by linarith)]; ring
+        · rcases lt_or_ge hi.y p.y with h' | h'
+          · exfalso; apply hcon.2.2.2; rw [max_eq_right (by linarith), max_eq_left (by linarith)]; ring
+          · exact ⟨h, h'⟩
+      exact ⟨hx, hy⟩
+    · intro q ⟨⟨qx1, qx2⟩, ⟨qy1, qy2⟩⟩
+      have := x4 q.x qx1 qx2; have := y4 q.y qy1 qy2
+      linarith
+
+/-- the non-solid interior branch (2-D) moves `p` onto one edge, and that edge is at least as near as each of the four -/
+private theorem aabb2_hollow_select (lo hi p : V2 K) (hok : BoxOk2 lo hi) (hm : BoxMem2 lo hi p) :
+    letI := fieldNum K sq
+    ∃ δ : K, (δ ≤ p.x - lo.x ∧ δ ≤ hi.x - p.x ∧ δ ≤ p.y - lo.y ∧ δ ≤ hi.y - p.y) ∧
+      (((aabbProject2 lo hi p false).pt = ⟨lo.x, p.y⟩ ∧ δ = p.x - lo.x) ∨
+       ((aabbProject2 lo hi p false).pt = ⟨hi.x, p.y⟩ ∧ δ = hi.x - p.x) ∨
+       ((aabbProject2 lo hi p false).pt = ⟨p.x, lo.y⟩ ∧ δ = p.y - lo.y) ∨
+       ((aabbProject2 lo hi p false).pt = ⟨p.x, hi.y⟩ ∧ δ = hi.y - p.y)) := by
+  letI := fieldNum K sq
+  have hZ := (aabb2_shift_zero sq lo hi p hok).mpr hm
+  obtain ⟨⟨mx1, mx2⟩, ⟨my1, my2⟩⟩ := hm
+  simp only [aabbProject2, aabbDoProject2, hZ, Bool.not_true, Bool.false_eq_true, if_false, aabbStep_eq]
+  simp only [V2.sub, decide_true, if_true]
+  have lx1 := le_max_left (lo.x - p.x) (p.x - hi.x); have lx2 := le_max_right (lo.x - p.x) (p.x - hi.x)
+  have ly1 := le_max_left (lo.y - p.y) (p.y - hi.y); have ly2 := le_max_right (lo.y - p.y) (p.y - hi.y)
+  by_cases h1 : max (lo.x - p.x) (p.x - hi.x) < max (lo.y - p.y) (p.y - hi.y)
+  · simp only [h1, decide_true, if_true, Option.getD_some]
+    by_cases f : p.y - hi.y ≤ lo.y - p.y
+    · have e := max_eq_left f
+      simp only [f, decide_true, if_true]
+      refine ⟨p.y - lo.y, ⟨?_, ?_, ?_, ?_⟩, (fun h => Or.inr (Or.inr (Or.inl h))) ⟨v2_ext ?_ ?_, rfl⟩⟩ <;>
+        first | linarith | (simp [V2.add, V2.set, V2.zero, e])
+    · simp only [f, decide_false, Bool.false_eq_true, if_false]
+      push Not at f
+      have e := max_eq_right f.le
+      refine ⟨hi.y - p.y, ⟨?_, ?_, ?_, ?_⟩, (fun h => Or.inr (Or.inr (Or.inr h))) ⟨v2_ext ?_ ?_, rfl⟩⟩ <;>
+        first | linarith | (simp [V2.add, V2.set, V2.zero, e])
+  · simp only [h1, decide_false, Bool.false_eq_true, if_false, Option.getD_some]
+    push Not at h1
+    by_cases f : p.x - hi.x ≤ lo.x - p.x
+    · have e := max_eq_left f
+      simp only [f, decide_true, if_true]
+      refine ⟨p.x - lo.x, ⟨?_, ?_, ?_, ?_⟩, Or.inl ⟨v2_ext ?_ ?_, rfl⟩⟩ <;>
+        first | linarith | (simp [V2.add, V2.set, V2.zero, e])
+    · simp only [f, decide_false, Bool.false_eq_true, if_false]
+      push Not at f
+      have e := max_eq_right f.le
+      refine ⟨hi.x - p.x, ⟨?_, ?_, ?_, ?_⟩, (fun h => Or.inr (Or.inl h)) ⟨v2_ext ?_ ?_, rfl⟩⟩ <;>
+        first | linarith | (simp [V2.add, V2.set, V2.zero, e])
+
+/-- **membership** (2-D, both flags) -/
+theorem aabb2_project_mem (lo hi p : V2 K) (solid : Bool) (hok : BoxOk2 lo hi) :
+    letI := fieldNum K sq
+    BoxMem2 lo hi (aabbProject2 lo hi p solid).pt := by
+  letI := fieldNum K sq
+  by_cases hc : solid = true ∨ ¬ BoxMem2 lo hi p
+  · exact (aabb2_solid_core sq lo hi p solid hok hc).1
+  · push Not at hc
+    have hs : solid = false := by simpa using hc.1
+    subst hs
+    obtain ⟨⟨mx1, mx2⟩, ⟨my1, my2⟩⟩ := hc.2
+    obtain ⟨δ, _, h | h | h | h⟩ := aabb2_hollow_select sq lo hi p hok hc.2 <;>
+      (rw [h.1]; simp only [BoxMem2]; refine ⟨⟨?_, ?_⟩, ⟨?_, ?_⟩⟩ <;> first | assumption | exact le_refl _ | exact hok.1 | exact hok.2)
+
+/-- **boundary** (2-D) -/
+theorem aabb2_project_on_boundary (lo hi p : V2 K) (solid : Bool) (hok : BoxOk2 lo hi) :
+    letI := fieldNum K sq
+    (solid = false ∨ ¬ BoxMem2 lo hi p) → BoxBnd2 lo hi (aabbProject2 lo hi p solid).pt := by
+  letI := fieldNum K sq
+  intro h
+  by_cases hm : BoxMem2 lo hi p
+  · have hs : solid = false := by rcases h with h | h; exact h; exact absurd hm h
+    subst hs
+    refine ⟨aabb2_project_mem sq lo hi p false hok, ?_⟩
+    obtain ⟨δ, _, h | h | h | h⟩ := aabb2_hollow_select sq lo hi p hok hm <;> rw [h.1] <;> simp
+  · exact (aabb2_solid_core sq lo hi p solid hok (Or.inr hm)).2.1 hm
+
+/-- **optimality w.r.t. the solid box** (2-D) -/
+theorem aabb2_project_optimal (lo hi p q : V2 K) (solid : Bool) (hok : BoxOk2 lo hi) :
+    letI := fieldNum K sq
+    BoxMem2 lo hi q → (solid = true ∨ ¬ BoxMem2 lo hi p) → dsq2 p (aabbProject2 lo hi p solid).pt ≤ dsq2 p q := by
+  letI := fieldNum K sq
+  intro hq hc
+  have h := (aabb2_solid_core sq lo hi p solid hok hc).2.2 q hq
+  simp only [V2.dot, V2.sub] at h
+  exact opt_of_var2 _ _ _ _ _ _ h
+
+/-- **optimality w.r.t. the boundary** (2-D, both flags) -/
+theorem aabb2_project_optimal_boundary (lo hi p q : V2 K) (solid : Bool) (hok : BoxOk2 lo hi) :
+    letI := fieldNum K sq
+    BoxBnd2 lo hi q → dsq2 p (aabbProject2 lo hi p solid).pt ≤ dsq2 p q := by
+  letI := fieldNum K sq
+  intro hq
+  by_cases hc : solid = true ∨ ¬ BoxMem2 lo hi p
+  · exact aabb2_project_optimal sq lo hi p q solid hok hq.1 hc
+  · push Not at hc
+    have hs : solid = false := by simpa using hc.1
+    subst hs
+    obtain ⟨⟨mx1, mx2⟩, ⟨my1, my2⟩⟩ := hc.2
+    obtain ⟨δ, ⟨d1, d2, d3, d4⟩, hsel⟩ := aabb2_hollow_select sq lo hi p hok hc.2
+    have hδ : 0 ≤ δ := by rcases hsel with h | h | h | h <;> rw [h.2] <;> linarith
+    have hd : dsq2 p (@aabbProject2 K (fieldNum K sq) lo hi p false).pt = δ * δ := by
+      rcases hsel with h | h | h | h <;> rw [h.1, h.2] <;> simp only [dsq2] <;> ring
+    rw [hd]
+    obtain ⟨⟨⟨qx1, qx2⟩, ⟨qy1, qy2⟩⟩, hf⟩ := hq
+    simp only [dsq2]
+    have sx := mul_self_nonneg (p.x - q.x); have sy := mul_self_nonneg (p.y - q.y)
+    rcases hf with e | e | e | e
+    · have : δ * δ ≤ (p.x - q.x) * (p.x - q.x) := by rw [e]; exact mul_self_le_mul_self hδ d1
+      linarith
+    · have : δ * δ ≤ (p.x - q.x) * (p.x - q.x) := by
+        rw [e]; have := mul_self_le_mul_self hδ d2; nlinarith
+      linarith
+    · have : δ * δ ≤ (p.y - q.y) * (p.y - q.y) := by rw [e]; exact mul_self_le_mul_self hδ d3
+      linarith
+    · have : δ * δ ≤ (p.y - q.y) * (p.y - q.y) := by
+        rw [e]; have := mul_self_le_mul_self hδ d4; nlinarith
+      linarith
+
+example : BoxOk2 (⟨-1, -2⟩ : V2 ℚ) ⟨1, 2⟩ ∧ BoxBnd2 (⟨-1, -2⟩ : V2 ℚ) ⟨1, 2⟩ ⟨1, 0⟩ := by
+  simp only [BoxOk2, BoxBnd2, BoxMem2]; norm_num
+
+def CubBnd2 (s : Cuboid2 K) (x : V2 K) : Prop := BoxBnd2 ⟨-s.he.x, -s.he.y⟩ s.he x
+def CubOk2 (s : Cuboid2 K) : Prop := 0 ≤ s.he.x ∧ 0 ≤ s.he.y
+
+private theorem cubOk2 (s : Cuboid2 K) (h : CubOk2 s) : BoxOk2 (⟨-s.he.x, -s.he.y⟩ : V2 K) s.he := by
+  obtain ⟨a, b⟩ := h
+  exact ⟨by simp only []; linarith, by simp only []; linarith⟩
+
+theorem cub2_inside_iff (s : Cuboid2 K) (p : V2 K) (solid : Bool) (h : CubOk2 s) :
+    letI := fieldNum K sq
+    (s.project p solid).inside = true ↔ s.Mem p :=
+  aabb2_inside_iff sq _ _ p solid (cubOk2 s h)
+theorem cub2_contains_iff (s : Cuboid2 K) (p : V2 K) (h : CubOk2 s) :
+    letI := fieldNum K sq
+    s.contains p = true ↔ s.Mem p :=
+  aabb2_inside_iff sq _ _ p true (cubOk2 s h)
+theorem cub2_project_mem (s : Cuboid2 K) (p : V2 K) (solid : Bool) (h : CubOk2 s) :
+    letI := fieldNum K sq
+    s.Mem (s.project p solid).pt :=
+  aabb2_project_mem sq _ _ p solid (cubOk2 s h)
+theorem cub2_project_on_boundary (s : Cuboid2 K) (p : V2 K) (solid : Bool) (h : CubOk2 s) :
+    letI := fieldNum K sq
+    (solid = false ∨ ¬ s.Mem p) → CubBnd2 s (s.project p solid).pt :=
+  aabb2_project_on_boundary sq _ _ p solid (cubOk2 s h)
+theorem cub2_project_optimal (s : Cuboid2 K) (p q : V2 K) (solid : Bool) (h : CubOk2 s) :
+    letI := fieldNum K sq
+    s.Mem q → (solid = true ∨ ¬ s.Mem p) → dsq2 p (s.project p solid).pt ≤ dsq2 p q :=
+  aabb2_project_optimal sq _ _ p q solid (cubOk2 s h)
+theorem cub2_project_optimal_boundary (s : Cuboid2 K) (p q : V2 K) (solid : Bool) (h : CubOk2 s) :
+    letI := fieldNum K sq
+    CubBnd2 s q → dsq2 p (s.project p solid).pt ≤ dsq2 p q :=
+  aabb2_project_optimal_boundary sq _ _ p q solid (cubOk2 s h)
+
+example : (⟨⟨0, 0⟩, ⟨4, 0⟩⟩ : Segment2 ℚ).Mem ⟨1, 0⟩ :=
+  ⟨1/4, by norm_num, by norm_num, by simp [V2.add, V2.sub, V2.smul]⟩
+example : (⟨2⟩ : Ball ℚ).Mem2 ⟨1, 1⟩ ∧ ¬ (⟨2⟩ : Ball ℚ).Mem2 ⟨2, 1⟩ := by
+  simp only [Ball.Mem2, V2.normSq, V2.dot]; norm_num
+example : (⟨⟨3/5, 4/5⟩⟩ : HalfSpace2 ℚ).n.normSq = 1 ∧ ¬ (⟨⟨3/5, 4/5⟩⟩ : HalfSpace2 ℚ).Mem ⟨1, 1⟩ := by
+  simp only [HalfSpace2.Mem, V2.normSq, V2.dot]; norm_num
+example : Iso2.Unit (⟨3/5, 4/5, ⟨1, 2⟩⟩ : Iso2 ℚ) := by simp only [Iso2.Unit]; norm_num
+--2D-END
+
 end C05
